@@ -60,6 +60,7 @@ class State:
         self.effects = L.EMPTY_SEQ   # ghost effect trace
         self.spec_mode = 0
         self.alloc = []         # fresh objects allocated on this path
+        self.clock = None       # ghost allocation clock (z3 Int): alloc_time(o) of an object created here is the clock value at its creation
 
     def wrap(self, b):
         for vs, g in reversed(self.qctx):
